@@ -8,7 +8,7 @@ OUT=/tmp/seedreg-$$; mkdir -p $OUT; cp known_findings.json $OUT/
 for S in $SEEDS; do
   P=${S:0:3}
   if ! git -C /repo diff --quiet; then echo "/repo has uncommitted changes"; exit 2; fi
-  git -C /repo apply seeded/$S/patch.diff 2>/dev/null || { echo "$S: patch does not apply to the current tree"; continue; }
+  git -C /repo apply /verif/seeded/$S/patch.diff 2>/dev/null || { echo "$S: patch does not apply to the current tree"; continue; }
   VERIF_ROOT=$OUT ./check $P --tier quick > $OUT/$S.log 2>&1; RC=$?
   git -C /repo checkout -- .
   N=$(grep -c "^VIOLATION" $OUT/$S.log)
